@@ -143,6 +143,7 @@ def gen_derive_case(rng):
     cols = [[COLS[i], [rng.randint(-50, 50) for _ in range(n)]] for i in range(rng.choice([0, 1, 2]))]
     case = {"idx": idx, "cols": cols, "ops": [], "derive": True}
     cur, present, transposed, concatenated = list(idx), [c for c, _ in cols], False, False
+    order = ["name"] + present          # _col_names of the current table
 
     def sel():
         m = len(cur)
@@ -190,6 +191,8 @@ def gen_derive_case(rng):
     for _ in range(rng.randint(1, 3)):
         case["ops"] += lookups(rng.randint(1, 4), writes=rng.random() < 0.3)      # on the source: builds its cache
         kinds = ["d_addself", "d_addself", "d_addrows", "d_addrows", "d_mul", "d_mul", "d_copy", "d_rows"]
+        if not transposed and present and cur:
+            kinds += ["d_reindex", "d_reindex", "d_reindex"]
         if not transposed:
             # Table.concatenate orders the columns by iterating a set: no _t (whose index column
             # is the column list) after it
@@ -213,7 +216,7 @@ def gen_derive_case(rng):
         elif kd == "d_cols":
             keep = [c for c in present if rng.random() < 0.6]
             rng.shuffle(keep)
-            case["ops"].append([kd, keep]); present = keep
+            case["ops"].append([kd, keep]); present = keep; order = ["name"] + keep
         elif kd == "d_concat":
             ss, ok, add = [], True, []
             for _ in range(rng.randint(0, 2)):
@@ -221,9 +224,21 @@ def gen_derive_case(rng):
                 ss.append(s); ok = ok and r is not None; add += r or []
             case["ops"].append([kd, ss]); cur = cur + add if ok else cur
             concatenated = True
+        elif kd == "d_reindex":
+            # delete / pop the index column, assign a column with the index name again (other content)
+            cur = [rng.choice(alpha) for _ in range(len(cur))]
+            case["ops"].append([kd, list(cur), rng.choice(["del", "pop"]), rng.choice(["item", "attr"])])
+            order = [x for x in order if x != "name"] + ["name"]
+            if rng.random() < 0.5 and present:          # an ordinary column removed and created again as well
+                c = rng.choice(present)
+                case["ops"].append(["delcol", c, rng.choice(["del", "pop"])])
+                case["ops"].append(["setcol", c, [rng.randint(-50, 50) for _ in range(len(cur))], rng.choice(["item", "attr"])])
+                order = [x for x in order if x != c] + [c]
+                present = [x for x in order if x != "name"]
         else:
-            case["ops"].append([kd, ["name"] + present])      # the labels: column names of the source
-            cur, transposed = ["name"] + present, True
+            labels = list(order)
+            case["ops"].append([kd, list(labels)])      # the labels: column names of the source, in its order
+            cur, transposed = labels, True
         if not cur:
             break
         case["ops"] += lookups(rng.randint(3, 8))                                    # on the derived table
@@ -338,6 +353,8 @@ def emit_dop(op, N):
         return f"DConcat {clist([emit_idx(x) for x in op[1]])}"
     if k == "d_t":
         return f"DT {clist([cn(N(c)) for c in op[1]])}"
+    if k == "d_reindex":
+        return f"DReindex {clist([cn(N(x)) for x in op[1]])}"
     return f"DOp ({emit_op(op, N)})"
 
 
@@ -455,7 +472,7 @@ def run(ctx):
                 "non-ASCII and case-variant names): 30+ lookups name::k / (name,k) / (name,k,off) over the whole range of k incl. negative "
                 "and out of range, get_index_unique, then the same after renaming a row / replacing the column; plus 500 (quick) / 8000 (thorough) "
                 "lookup / derive / lookup chains: name lookups on the current table, then t+t, t+t.rows[..], t*k, _copy, rows[..], cols[..], "
-                "Table.concatenate or _t makes a new table object current, then lookups, writes by name::count and get_index_unique on the result "
+                "Table.concatenate or _t makes a new table object current, or the index column is deleted (del / pop) and assigned again under its name (item / attribute style; ordinary columns too), then lookups, writes by name::count and get_index_unique on the result "
                 "over the whole range of occurrence numbers of ITS index column, 1-3 times; non-trivial = an index-column "
                 "mutation followed by a name-based lookup; distinct by (table, ops)")
     proof_ok = vlib.standard_proof_part(ctx, "props/C07.v", allowed_axioms=(), extra_targets=["run/RunTable.vo", "run/RunTableDerive.vo"])
